@@ -20,6 +20,7 @@ impl Family {
         // quick bound per family; thorough = one item longer where the alphabet is small (<= 9 items)
         let quick: u32 = match self.name {
             "frozen-constant-body" | "symbol-named-like-a-parameter" | "subrule-operand" | "constant-size-flips-with-a-label" | "data-in-range-only-after-shrinking" => 4,
+            "global-constant-named-like-a-parameter" => 5,
             "late-flipping-boolean-constant" => 5,
             _ => 3,
         };
@@ -210,6 +211,21 @@ pub fn families() -> Vec<Family> {
                 Item::Label("B".into()),
                 Item::Data(Some(8), vec!["254 + (B - A)".into()]),
                 Item::Data(Some(8), vec!["(A - B) - 127".into()]),
+                Item::Instr("nop".into()),
+            ],
+        },
+        Family {
+            // a global literal constant that has the NAME of a rule parameter, while the argument bound to that parameter
+            // is a label that settles late
+            name: "global-constant-named-like-a-parameter",
+            rules: vec![RuleSrc::new("jb {a}", "{ assert(a < 6), 0xa @ a`4 }"), RuleSrc::new("jb {a}", "0xb0 @ a`8"), RuleSrc::new("ld {x}", "0x7e @ x`8"), RuleSrc::new("nop", "0x00")],
+            items: vec![
+                Item::Const("x".into(), "1".into()),
+                Item::Instr("jb E".into()),
+                Item::Label("L".into()),
+                Item::Instr("ld L".into()),
+                Item::Instr("ld 5".into()),
+                Item::Label("E".into()),
                 Item::Instr("nop".into()),
             ],
         },
@@ -538,7 +554,7 @@ pub fn quick_budgets() -> Vec<usize> {
 pub fn run(ctx: &Ctx) -> Report {
     let mut rep = Report::new(
         "model_checking",
-        "sixteen rule families with value-dependent encodings (assert cascades with 2 and 3 sizes, typed-width cascade, pc-relative, far-is-short with no/oscillating fixed points, tie next to a cascade) x all item sequences up to a length over 15 items x iteration budgets x the 4 optimisation-switch combinations, plus the skeleton grid (forward chains of length 0..12, with and without an oscillator) x budgets 1..30 x 4; every claimed success is re-derived from its own final symbol values and instruction sizes (certificate). Non-trivial = program that needed >= 2 passes under some configuration; distinct by program text. states = distinct (program, per-pass state digest) pairs read through hook H2, transitions = resolver passes executed.",
+        "seventeen rule families with value-dependent encodings (assert cascades with 2 and 3 sizes, typed-width cascade, pc-relative, far-is-short with no/oscillating fixed points, tie next to a cascade) x all item sequences up to a length over 15 items x iteration budgets x the 4 optimisation-switch combinations, plus the skeleton grid (forward chains of length 0..12, with and without an oscillator) x budgets 1..30 x 4; every claimed success is re-derived from its own final symbol values and instruction sizes (certificate). Non-trivial = program that needed >= 2 passes under some configuration; distinct by program text. states = distinct (program, per-pass state digest) pairs read through hook H2, transitions = resolver passes executed.",
     );
     let fams = families();
     // sequence families: budgets around the pass counts that occur (1..6), the default and its neighbour, and a large
